@@ -2111,6 +2111,10 @@ int sexp_maybe_block_port (sexp ctx, sexp in, int forcep) {
 }
 
 int sexp_maybe_block_output_port (sexp ctx, sexp out) {
+  /* returns true iff this call switched the port to blocking mode, in */
+  /* which case the caller is the one to switch it back */
+  if (sexp_port_blockedp(out))
+    return 0;
   if ((sexp_port_stream(out) || sexp_filenop(sexp_port_fd(out)))
       && sexp_port_fileno(out) >= 0) {
     if (sexp_port_flags(out) == SEXP_PORT_UNKNOWN_FLAGS)
@@ -2568,13 +2572,19 @@ sexp sexp_write_one (sexp ctx, sexp obj, sexp out, sexp_sint_t bound) {
 
 sexp sexp_write_op (sexp ctx, sexp self, sexp_sint_t n, sexp obj, sexp out) {
   sexp res;
-  sexp_assert_type(ctx, sexp_oportp, SEXP_OPORT, out);
 #if SEXP_USE_GREEN_THREADS
-  sexp_maybe_block_output_port(ctx, out);
+  int blocked;
+#endif
+  sexp_assert_type(ctx, sexp_oportp, SEXP_OPORT, out);
+  /* the writers of numbers, uniform vectors and record types call */
+  /* back into this function for the parts of an object: only the */
+  /* outermost call may restore non-blocking mode */
+#if SEXP_USE_GREEN_THREADS
+  blocked = sexp_maybe_block_output_port(ctx, out);
 #endif
   res = sexp_write_one(ctx, obj, out, 0);
 #if SEXP_USE_GREEN_THREADS
-  sexp_maybe_unblock_port(ctx, out);
+  if (blocked) sexp_maybe_unblock_port(ctx, out);
 #endif
   return res;
 }
@@ -2603,16 +2613,19 @@ int sexp_write_utf8_char (sexp ctx, int c, sexp out) {
 
 sexp sexp_flush_output_op (sexp ctx, sexp self, sexp_sint_t n, sexp out) {
   int res;
+#if SEXP_USE_GREEN_THREADS
+  int blocked = 0;
+#endif
   sexp_assert_type(ctx, sexp_oportp, SEXP_OPORT, out);
 #if SEXP_USE_GREEN_THREADS
   /* a descriptor port keeps what a short or would-block write left over */
   /* and reports success, so flush it in blocking mode */
   if (!sexp_port_stream(out))
-    sexp_maybe_block_output_port(ctx, out);
+    blocked = sexp_maybe_block_output_port(ctx, out);
 #endif
   res = sexp_flush_forced(ctx, out);
 #if SEXP_USE_GREEN_THREADS
-  sexp_maybe_unblock_port(ctx, out);
+  if (blocked) sexp_maybe_unblock_port(ctx, out);
 #endif
   if (res == EOF) {
 #if SEXP_USE_GREEN_THREADS
